@@ -353,7 +353,7 @@ pub fn run(tier: Tier, seed: u64) -> i32 {
         }
         Ok(())
     });
-    let n = ctx.pick(1_000_000, 12_000_000);
+    let n = ctx.pick(3_000_000, 16_000_000);
     ctx.par_random(n, 200, 18, |tape, l| {
         let (g, input, sub) = decode(tape);
         debug_assert!(wf(&g), "ill-formed: {}", render(&g));
